@@ -75,6 +75,46 @@ func init() {
 			s := fmtSprint(fr, a[1].([]value), false)
 			return tuple{writeTo(fr, a[0], s), iface{}}
 		},
+		// sync/atomic on concrete cells: plain read-modify-write (one logical thread; no pre-emption is modelled)
+		"sync/atomic.AddInt64":  func(fr *frame, a []value) value { c := a[0].(*value); n := asInt64(*c) + asInt64(a[1]); *c = n; return n },
+		"sync/atomic.AddInt32":  func(fr *frame, a []value) value { c := a[0].(*value); n := int32(asInt64(*c) + asInt64(a[1])); *c = n; return n },
+		"sync/atomic.AddUint64": func(fr *frame, a []value) value { c := a[0].(*value); n := uint64(asInt64(*c) + asInt64(a[1])); *c = n; return n },
+		"sync/atomic.AddUint32": func(fr *frame, a []value) value { c := a[0].(*value); n := uint32(asInt64(*c) + asInt64(a[1])); *c = n; return n },
+		"sync/atomic.LoadInt64":  func(fr *frame, a []value) value { return *a[0].(*value) },
+		"sync/atomic.LoadInt32":  func(fr *frame, a []value) value { return *a[0].(*value) },
+		"sync/atomic.LoadUint64": func(fr *frame, a []value) value { return *a[0].(*value) },
+		"sync/atomic.LoadUint32": func(fr *frame, a []value) value { return *a[0].(*value) },
+		"sync/atomic.StoreInt64":  func(fr *frame, a []value) value { *a[0].(*value) = a[1]; return nil },
+		"sync/atomic.StoreInt32":  func(fr *frame, a []value) value { *a[0].(*value) = a[1]; return nil },
+		"sync/atomic.StoreUint64": func(fr *frame, a []value) value { *a[0].(*value) = a[1]; return nil },
+		"sync/atomic.StoreUint32": func(fr *frame, a []value) value { *a[0].(*value) = a[1]; return nil },
+		"fmt.Sscanf": func(fr *frame, a []value) value {
+			// concrete subject and the format "%d" with one *int64 / *int destination only
+			str, ok1 := a[0].(string)
+			f, ok2 := a[1].(string)
+			args := a[2].([]value)
+			if !ok1 || !ok2 || f != "%d" || len(args) != 1 {
+				panic(pathUnsupported{"fmt.Sscanf outside the modelled form (concrete text, \"%d\", one destination)"})
+			}
+			dst, ok := args[0].(iface).v.(*value)
+			if !ok || dst == nil {
+				panic(pathUnsupported{"fmt.Sscanf destination"})
+			}
+			var n int64
+			cnt, err := fmt.Sscanf(str, "%d", &n)
+			if err == nil {
+				switch (*dst).(type) {
+				case int64:
+					*dst = n
+				case int:
+					*dst = int(n)
+				default:
+					panic(pathUnsupported{"fmt.Sscanf destination type"})
+				}
+				return tuple{cnt, iface{}}
+			}
+			return tuple{cnt, iface{}}   // the caller ignores the error; the destination keeps its value
+		},
 		"fmt.Println": func(fr *frame, a []value) value { return tuple{0, iface{}} },
 		"fmt.Printf":  func(fr *frame, a []value) value { return tuple{0, iface{}} },
 		"fmt.Print":   func(fr *frame, a []value) value { return tuple{0, iface{}} },
